@@ -1017,6 +1017,12 @@ class Describer:
                     return opaque(f"entity writer passes {arg!r} to a field writer")
                 fields.append({"attr": arg[0][2], "codec": e[2]})
                 i += 1
+            if not fields and any(x[0][0] == "codec" and x[0][1] != "P0" and len(x[0][3]) == 1 and
+                                  (x[0][3][0] == V or (isinstance(x[0][3][0], tuple) and x[0][3][0][:2] == ("attr", V))) for x in evs) and \
+                    not any(x[0][0] == "wvarint" and x[0][1] == "P0" for x in evs):
+                # every field goes to a local buffer and the sink only receives that buffer's contents: a shape this matcher does not
+                # describe (it would look like an entity without regular fields)
+                return opaque("the entity is encoded into a local buffer first and copied to the sink in one write")
             sig = [(f["attr"], id(f["codec"])) for f in fields]
             if out["fields"] is None:
                 out["fields"] = fields
